@@ -37,7 +37,10 @@ Definition names_of (g : zstate) : list Z := PartitionStateOk.names_of g.
 Definition abs_flag (g : zstate) (weighted : bool) (gamma : Q) (comms : list (list Z))
            (ip : outcome bool) (md : outcome oq) : bool :=
   let nodes := names_of g in
-  (* the node indexes are coherent with the node list (hypothesis of C12_is_partition_state) *)
+  (* per-case tie between model and code, kept after round 2: these links are now THEOREMS for every
+     reachable state (C12_WF_nodes_coherent, C12_is_partition_reachable, C12_modularity_state_abs,
+     C12_modularity_reachable in Properties/C12.v); a 0 here would mean the model left its invariant.
+     The node indexes are coherent with the node list (hypothesis of C12_is_partition_state) *)
   nodes_coherentb Z.eqb g && nodupb Z.eqb nodes &&
   (* the list-level partition test the theorems are about agrees with the state-level model *)
   (match ip with
